@@ -15,8 +15,12 @@ package c14
 //	    files = . | <file>/<file>/…   the --envfile files, in order; file = _ (empty) | <var>=<val>,…  var = x | h | o
 //	    ev    = S:<r|->:<cfg>   start `caddy run [--resume] --envfile … --config <file holding cfg>` (a new process)
 //	          | P:<cfg>         POST /load <cfg> on the admin socket of the running process
+//	          | Q:<cfg>         PATCH /config/apps/c14probe with the app object of <cfg> (a sub-path write: persistence
+//	                            flag and pki app stay those of the running document)
+//	          | I:<cfg>         PATCH /id/a with that object (works iff the running document tags the app with @id a)
 //	          | K               SIGKILL the running process
-//	    cfg   = <n><p|d|n>[x|k] config number (k = with the pki app on caddy's DEFAULT storage: the answer then shows the
+//	    cfg   = <n><p|d|n>[x|k][i|u]   (i / u: the app object carries "@id":"a" / "@id":"b" — the same config with a
+//	                            different letter differs ONLY in ids)   config number (k = with the pki app on caddy's DEFAULT storage: the answer then shows the
 //	                            running root and the root.crt under the data directory of the environment after / before
 //	                            the env files: /r<id>, ra=<id>, rb=<id>), admin.config.persist true / absent / false, x = its app fails to provision
 //	          | c<n><d|n>       (S only) a CADDYFILE, adapted by the real httpcaddyfile adapter (`--adapter caddyfile`):
@@ -35,6 +39,7 @@ import (
 	"os"
 	"os/exec"
 	"path/filepath"
+	"reflect"
 	"sort"
 	"strconv"
 	"strings"
@@ -83,6 +88,7 @@ type rsCfg struct {
 	persist   byte
 	fail      bool
 	pki       bool
+	id        byte // 0 | i | u
 	caddyfile bool
 }
 
@@ -94,13 +100,16 @@ func (c rsCfg) token() string {
 	if c.pki {
 		t += "k"
 	}
+	if c.id != 0 {
+		t += string(c.id)
+	}
 	return t
 }
 
 func parseRSCfg(s string) (rsCfg, bool) {
 	if strings.HasPrefix(s, "c") {
 		c, ok := parseRSCfg(s[1:])
-		if !ok || c.fail || c.pki || c.persist == 'p' {
+		if !ok || c.fail || c.pki || c.id != 0 || c.persist == 'p' {
 			return rsCfg{}, false
 		}
 		c.caddyfile = true
@@ -114,7 +123,12 @@ func parseRSCfg(s string) (rsCfg, bool) {
 		return rsCfg{}, false
 	}
 	c := rsCfg{n: s[:i], persist: s[i]}
-	switch s[i+1:] {
+	rest := s[i+1:]
+	if strings.HasSuffix(rest, "i") || strings.HasSuffix(rest, "u") {
+		c.id = rest[len(rest)-1]
+		rest = rest[:len(rest)-1]
+	}
+	switch rest {
 	case "":
 	case "x":
 		c.fail = true
@@ -197,6 +211,12 @@ func parseRS(f []string) (rsCase, bool) {
 				return c, false // only JSON is pushed
 			}
 			c.evs = append(c.evs, rsEvent{kind: 'P', cfg: cfg})
+		case len(a) == 2 && (a[0] == "Q" || a[0] == "I"):
+			cfg, ok := parseRSCfg(a[1])
+			if !ok || cfg.caddyfile || cfg.pki {
+				return c, false
+			}
+			c.evs = append(c.evs, rsEvent{kind: a[0][0], cfg: cfg})
 		case len(a) == 3 && a[0] == "S" && (a[1] == "r" || a[1] == "-"):
 			cfg, ok := parseRSCfg(a[2])
 			if !ok || cfg.fail {
@@ -268,12 +288,7 @@ func (c rsCfg) json(sock string) []byte {
 	case 'n':
 		admin["config"] = map[string]any{"persist": false}
 	}
-	n, _ := strconv.Atoi(c.n)
-	probe := map[string]any{"n": n, "tok": c.token()}
-	if c.fail {
-		probe["fail"] = "provision"
-	}
-	apps := map[string]any{"c14probe": probe}
+	apps := map[string]any{"c14probe": c.probeObject()}
 	if c.pki {
 		apps["pki"] = map[string]any{"certificate_authorities": map[string]any{"local": map[string]any{"install_trust": false}}}
 	}
@@ -294,6 +309,25 @@ func (c rsCfg) caddyfileText(sock string) []byte {
 	}
 	sb.WriteString("}\n")
 	return []byte(sb.String())
+}
+
+// probeObject: the app object; its own "tok" leaves the id letter out, so that i / u / none differ
+// in the @id tag and in nothing else
+func (c rsCfg) probeObject() map[string]any {
+	n, _ := strconv.Atoi(c.n)
+	plain := c
+	plain.id = 0
+	probe := map[string]any{"n": n, "tok": plain.token()}
+	if c.fail {
+		probe["fail"] = "provision"
+	}
+	switch c.id {
+	case 'i':
+		probe["@id"] = "a"
+	case 'u':
+		probe["@id"] = "b"
+	}
+	return probe
 }
 
 // tokOfJSON: the token of a config document ("-" none, "~" not one of ours)
@@ -322,16 +356,36 @@ func tokOfJSON(b []byte) string {
 		}
 	}
 	var v struct {
+		Admin struct {
+			Config *struct {
+				Persist *bool `json:"persist"`
+			} `json:"config"`
+		} `json:"admin"`
 		Apps struct {
 			P struct {
-				Tok string `json:"tok"`
+				N    int    `json:"n"`
+				Tok  string `json:"tok"`
+				Fail string `json:"fail"`
+				ID   string `json:"@id"`
 			} `json:"c14probe"`
+			PKI json.RawMessage `json:"pki"`
 		} `json:"apps"`
 	}
 	if json.Unmarshal(b, &v) != nil || v.Apps.P.Tok == "" {
 		return "~"
 	}
-	return v.Apps.P.Tok
+	// the token is read off the document's own fields (a sub-path write changes only some of them)
+	c := rsCfg{n: strconv.Itoa(v.Apps.P.N), persist: 'd', fail: v.Apps.P.Fail != "", pki: len(v.Apps.PKI) > 0}
+	if v.Admin.Config != nil && v.Admin.Config.Persist != nil {
+		c.persist = map[bool]byte{true: 'p', false: 'n'}[*v.Admin.Config.Persist]
+	}
+	switch v.Apps.P.ID {
+	case "a":
+		c.id = 'i'
+	case "b":
+		c.id = 'u'
+	}
+	return c.token()
 }
 
 func runRS(line string, f []string) core.Outcome {
@@ -488,13 +542,30 @@ func runRS(line string, f []string) core.Outcome {
 			}
 			kill()
 			outs = append(outs, "K"+state())
-		case 'P':
+		case 'P', 'Q', 'I':
+			kind := string(ev.kind)
 			if proc == nil {
-				outs = append(outs, "P=norun"+state())
+				outs = append(outs, kind+"=norun"+state())
 				continue
 			}
-			resp, err := caddycmd.AdminAPIRequest(adminAddr, http.MethodPost, "/load", http.Header{"Content-Type": []string{"application/json"}},
-				strings.NewReader(string(ev.cfg.json(sock))))
+			runTokBefore, _ := running()
+			method, uri, body := http.MethodPost, "/load", ev.cfg.json(sock)
+			expect := ev.cfg
+			if ev.kind != 'P' {
+				// a sub-path write: only the app object is replaced
+				method, uri = http.MethodPatch, "/config/apps/c14probe"
+				if ev.kind == 'I' {
+					uri = "/id/a"
+				}
+				body, _ = json.Marshal(ev.cfg.probeObject())
+				if rc, ok := parseRSCfg(runTokBefore); ok {
+					expect.persist, expect.pki = rc.persist, rc.pki
+				}
+				tags["push:"+kind] = true
+			}
+			resp, err := caddycmd.AdminAPIRequest(adminAddr, method, uri, http.Header{"Content-Type": []string{"application/json"}},
+				strings.NewReader(string(body)))
+			ev.cfg = expect
 			res := "rej"
 			if err == nil {
 				io.Copy(io.Discard, resp.Body)
@@ -504,21 +575,36 @@ func runRS(line string, f []string) core.Outcome {
 				}
 			}
 			tags["push:"+res] = true
+			if ev.cfg.id != 0 {
+				tags["push:with-id"] = true
+			}
 			if res == "ok" && ev.cfg.persist != 'n' {
 				lastPersisted = ev.cfg.token()
 				if got := fileTok(pathA); got != lastPersisted {
 					fail("rs-autosave-not-latest-after-push-returned",
-						fmt.Sprintf("event %d of %q: POST /load of %s returned 200 but the autosave file at the environment's path holds %s", i+1, line, lastPersisted, got))
+						fmt.Sprintf("event %d of %q: %s %s of %s returned 200 but the autosave file at the environment's path holds %s", i+1, line, method, uri, lastPersisted, got))
+				}
+				// the file is a copy of the DOCUMENT the server now holds, @id tags included
+				var fileDoc, liveDoc any
+				fb, _ := os.ReadFile(pathA)
+				if resp, err := caddycmd.AdminAPIRequest(adminAddr, http.MethodGet, "/config/", nil, nil); err == nil {
+					lb, _ := io.ReadAll(resp.Body)
+					resp.Body.Close()
+					if json.Unmarshal(fb, &fileDoc) != nil || json.Unmarshal(lb, &liveDoc) != nil || !reflect.DeepEqual(fileDoc, liveDoc) {
+						fail("rs-autosave-differs-from-running-document",
+							fmt.Sprintf("event %d of %q: after %s %s returned, GET /config/ and the autosave file are different documents (file: %s, running: %s)",
+								i+1, line, method, uri, tokOfJSON(fb), tokOfJSON(lb)))
+					}
 				}
 			}
-			if (res == "ok") == ev.cfg.fail {
+			if ev.kind == 'P' && (res == "ok") == ev.cfg.fail {
 				fail("harness-probe-config-verdict", fmt.Sprintf("event %d of %q: push of %s: %s", i+1, line, ev.cfg.token(), res))
 			}
 			rr := ""
 			if res == "ok" {
 				rr = checkRoot(i, ev.cfg.token())
 			}
-			outs = append(outs, "P="+res+rr+state())
+			outs = append(outs, kind+"="+res+rr+state())
 		case 'S':
 			kill() // a new start means the old process is gone
 			cfgPath := filepath.Join(work, fmt.Sprintf("config%d.json", i))
